@@ -423,6 +423,10 @@ class CompGen:
         n_in = rng.randint(*self.nports); n_out = rng.randint(*self.nports)
         ports = []
         for k in range(n_in + n_out):
+            if k >= n_in and ports and rng.random() < 0.1:
+                # the declaration lists one sequence twice (as an input and as an output, like David_CRN/rxn_ab_2b; with
+                # independent stars): bound to one signal it gives one connector, or two of different names
+                ports.append(rng.choice(ports)); continue
             L = rng.choice(self.port_lens)
             plain = rng.random() < 0.8      # ports with plain N templates keep most systems satisfiable
             if rng.random() < 0.5:
@@ -444,7 +448,7 @@ class CompGen:
         for t in todo:
             (self.add_sup if t == "sup" else self.add_strand)()
         # make sure every port occurs in some strand (so that it is designed)
-        for p in ports:
+        for p in list(dict.fromkeys(ports)):
             name = self.nm("P")
             rev = rng.random() < 0.4
             v = self.view(p, rev)
